@@ -23,10 +23,23 @@ const (
 	LinkEthernet = 1
 	LinkRaw      = 101
 	LinkSLL      = 113
+	LinkIPv4     = 228 // raw IPv4: every packet of the interface is IPv4
+	LinkIPv6     = 229 // raw IPv6: every packet of the interface is IPv6
 	LinkSLL2     = 276
 )
 
-var linkChoices = [...]int{LinkEthernet, LinkRaw, LinkSLL, LinkSLL2, LinkNull}
+// linkChoices[5] stands for the raw link type of the one family the interface
+// carries (LinkIPv4 or LinkIPv6); on an interface that carries both families
+// it falls back to LinkRaw.
+var linkChoices = [...]int{LinkEthernet, LinkRaw, LinkSLL, LinkSLL2, LinkNull, -1}
+
+// BSD loopback address family values (host byte order of the capturing
+// machine). AF_INET6 differs between systems (24, 28, 30); fq's
+// bsd_loopback_frame knows 2 and 30 (Darwin) only, so only those are written.
+const (
+	afInet        = 2
+	afInet6Darwin = 30
+)
 
 func LinkName(l int) string {
 	switch l {
@@ -40,6 +53,10 @@ func LinkName(l int) string {
 		return "sll"
 	case LinkSLL2:
 		return "sll2"
+	case LinkIPv4:
+		return "ipv4"
+	case LinkIPv6:
+		return "ipv6"
 	}
 	return "?"
 }
@@ -106,18 +123,54 @@ func (s *CaptureSpec) Key() string {
 	return k + "/" + FileTypeNames[s.FileType]
 }
 
-// DrawCaptureSpec draws a capture flavour from the tape.
-func DrawCaptureSpec(c Chooser, p Params) *CaptureSpec {
+// DrawCaptureSpec draws a capture flavour from the tape. The world is needed
+// for the link types that carry one address family only: they are drawn for
+// an interface only when all its captured packets are of that family.
+func DrawCaptureSpec(c Chooser, p Params, w *World) *CaptureSpec {
 	s := &CaptureSpec{}
 	s.FileType = c.Intn(NumFileTypes)
-	s.Links = []int{linkChoices[c.Intn(len(linkChoices))]}
+	first := c.Intn(len(linkChoices))
+	second, two, late := 0, false, false
+	if s.IsPcapng() {
+		if two = chance(c, 1, 3); two {
+			second = c.Intn(len(linkChoices))
+			late = chance(c, 1, 2)
+		}
+	}
+	nIf := 1
+	if two {
+		nIf = 2
+	}
+	resolve := func(choice, ifi int) int {
+		if l := linkChoices[choice]; l >= 0 {
+			return l
+		}
+		has4, has6 := false, false
+		for i := range w.Tap {
+			if r := &w.Tap[i]; !r.Omitted && r.SrcHost%nIf == ifi {
+				if r.V6 {
+					has6 = true
+				} else {
+					has4 = true
+				}
+			}
+		}
+		switch {
+		case has4 && has6:
+			return LinkRaw
+		case has6:
+			return LinkIPv6
+		}
+		return LinkIPv4
+	}
+	s.Links = []int{resolve(first, 0)}
 	s.EthPad = chance(c, 1, 2)
 	s.BaseSec = uint32(pick(c, 1600000000, 0, 1, 0x7fffff00, 0xfffff000, 1234567890))
 	s.Snaplen = uint32(pick(c, 262144, 524288, 0x7fffffff))
 	if s.IsPcapng() {
-		if chance(c, 1, 3) {
-			s.Links = append(s.Links, linkChoices[c.Intn(len(linkChoices))])
-			s.LateIDB = chance(c, 1, 2)
+		if two {
+			s.Links = append(s.Links, resolve(second, 1))
+			s.LateIDB = late
 		}
 		s.TsResol = pick(c, 0, 6, 9)
 		s.SHBOptions = chance(c, 1, 2)
@@ -172,14 +225,18 @@ func (e *enc) pad4() {
 	}
 }
 
-// frame wraps an IPv4 packet into the link layer of the interface.
-func frame(link int, be bool, ethPad bool, ip []byte, src, dst *Host, outgoing bool, ifIndex int, padded *int) []byte {
+// frame wraps an IPv4 or IPv6 packet into the link layer of the interface.
+func frame(link int, be bool, ethPad bool, ip []byte, v6 bool, src, dst *Host, outgoing bool, ifIndex int, padded *int) []byte {
+	etHi, etLo, af := byte(0x08), byte(0x00), byte(afInet)
+	if v6 {
+		etHi, etLo, af = 0x86, 0xdd, afInet6Darwin
+	}
 	switch link {
 	case LinkEthernet:
 		f := make([]byte, 0, 14+len(ip))
 		f = append(f, dst.MAC[:]...)
 		f = append(f, src.MAC[:]...)
-		f = append(f, 0x08, 0x00)
+		f = append(f, etHi, etLo)
 		f = append(f, ip...)
 		if ethPad && len(f) < 60 {
 			for len(f) < 60 {
@@ -190,6 +247,11 @@ func frame(link int, be bool, ethPad bool, ip []byte, src, dst *Host, outgoing b
 		return f
 	case LinkRaw:
 		return ip
+	case LinkIPv4, LinkIPv6:
+		if v6 != (link == LinkIPv6) {
+			panic("netsim: packet of the other family on a single-family link type")
+		}
+		return ip
 	case LinkSLL:
 		f := make([]byte, 16, 16+len(ip))
 		if outgoing {
@@ -198,11 +260,11 @@ func frame(link int, be bool, ethPad bool, ip []byte, src, dst *Host, outgoing b
 		f[3] = 1 // ARPHRD_ETHER
 		f[5] = 6
 		copy(f[6:12], src.MAC[:])
-		f[14], f[15] = 0x08, 0x00
+		f[14], f[15] = etHi, etLo
 		return append(f, ip...)
 	case LinkSLL2:
 		f := make([]byte, 20, 20+len(ip))
-		f[0], f[1] = 0x08, 0x00
+		f[0], f[1] = etHi, etLo
 		put32(f[4:], uint32(ifIndex+1))
 		f[9] = 1 // ARPHRD_ETHER
 		if outgoing {
@@ -215,9 +277,9 @@ func frame(link int, be bool, ethPad bool, ip []byte, src, dst *Host, outgoing b
 		// address family in the byte order of the capturing machine
 		f := make([]byte, 4, 4+len(ip))
 		if be {
-			f[3] = 2
+			f[3] = af
 		} else {
-			f[0] = 2
+			f[0] = af
 		}
 		return append(f, ip...)
 	}
@@ -255,7 +317,7 @@ func WriteCapture(w *World, s *CaptureSpec) []byte {
 		cn := w.Conns[r.Conn]
 		src, dst := cn.Ends[r.Side].host, cn.Ends[1-r.Side].host
 		i := ifOf(r)
-		f := frame(s.Links[i], s.BigEndian(), s.EthPad, r.IP, src, dst, r.Side == 0, i, &padded)
+		f := frame(s.Links[i], s.BigEndian(), s.EthPad, r.IP, r.V6, src, dst, r.Side == 0, i, &padded)
 		orig := len(f)
 		r.Cut = 0
 		if snap > 0 && orig > snap {
